@@ -465,6 +465,221 @@ theorem C16_cursor_forward_view (t : Tx) (h : TxOK t) (hw : t.writable = true) (
           | none => simp
   · simp [hr]
 
+/-! ## cursors: backward walks, Seek, direction changes, Cursor.Delete
+
+All four are statements about the merging logic of `cursor` (`skipPendingUpdates`,
+`chooseIterator`, `Next`/`Prev` with the direction flag and `syncMergedIter`) for ANY two source
+iterators: whenever the two sources are positioned so that they walk `ld` / `lp` (`Stream` for
+forward, `BStream` for backward — both sides of the merge of the fixed code), the cursor walks the
+ordered merge in which the transaction's pending puts and removes shadow the snapshot side. -/
+
+/-- `Last` then `Prev`…: the ordered merge, descending. -/
+theorem C16_cursor_backward {δ π : Type} [ItOps δ] [ItOps π] (t : Tx) (fuel : Nat) (c : Cursor δ π)
+    (ld lp : List E) (hf : ld.length < fuel)
+    (hd : BStream (ItOps.last c.db).1 ld) (hp : BStream (ItOps.last c.pend).1 lp) :
+    CBStream t fuel (c.last t fuel).1 (mergeB (shadow t) ld lp) := by
+  unfold Cursor.last
+  exact choose_stream_back t fuel _ ld lp _ (Nat.le_refl _) hf rfl hd hp
+
+/-- `Seek(k)` then `Next`…: both sources are seeked to `<bucket id><k>`, then merged forwards. -/
+theorem C16_cursor_seek {δ π : Type} [ItOps δ] [ItOps π] (t : Tx) (fuel : Nat) (c : Cursor δ π) (k : Bytes)
+    (ld lp : List E) (hf : ld.length < fuel)
+    (hd : Stream (ItOps.seek c.db (bucketizedKey c.bucket k)).1 ld)
+    (hp : Stream (ItOps.seek c.pend (bucketizedKey c.bucket k)).1 lp) :
+    CStream t fuel (c.seek t fuel k).1 (mergeF (shadow t) ld lp) := by
+  unfold Cursor.seek
+  exact choose_stream t fuel _ ld lp _ (Nat.le_refl _) hf rfl hd hp
+
+/-- **Direction change, backward → forward** (`Next` after `Last`/`Prev`): both sources are
+    repositioned just after the current key (`syncMergedIter`), whichever of them the cursor was
+    standing on, and merged forwards — the other source no longer "sits on the far side". -/
+theorem C16_cursor_turn {δ π : Type} [ItOps δ] [ItOps π] (t : Tx) (fuel : Nat) (c : Cursor δ π)
+    (isDb : Bool) (k : Bytes) (ld lp : List E) (hf : ld.length < fuel)
+    (hcur : c.cur = some isDb) (hback : c.fwd = false) (hk : c.rawKey = some k)
+    (hd : Stream (syncOther c.db k true) ld) (hp : Stream (syncOther c.pend k true) lp) :
+    CStream t fuel (c.next t fuel).1 (mergeF (shadow t) ld lp) := by
+  unfold Cursor.next
+  simp only [hcur, hback, Bool.not_false, if_true, hk, Option.getD_some]
+  exact choose_stream t fuel _ ld lp _ (Nat.le_refl _) hf rfl hd hp
+
+/-- … and forward → backward (`Prev` after `First`/`Next`/`Seek`). -/
+theorem C16_cursor_turn_back {δ π : Type} [ItOps δ] [ItOps π] (t : Tx) (fuel : Nat) (c : Cursor δ π)
+    (isDb : Bool) (k : Bytes) (ld lp : List E) (hf : ld.length < fuel)
+    (hcur : c.cur = some isDb) (hfwd : c.fwd = true) (hk : c.rawKey = some k)
+    (hd : BStream (syncOther c.db k false) ld) (hp : BStream (syncOther c.pend k false) lp) :
+    CBStream t fuel (c.prev t fuel).1 (mergeB (shadow t) ld lp) := by
+  unfold Cursor.prev
+  simp only [hcur, hfwd, if_true, hk, Option.getD_some]
+  exact choose_stream_back t fuel _ ld lp _ (Nat.le_refl _) hf rfl hd hp
+
+/-- **Cursor.Delete during a forward walk.**  The delete changes the transaction (`t'`: the key is
+    pending-removed, the pending iterators are refreshed).  The walk continues correctly from
+    there: `Next` steps the source the cursor stands on and merges with the NEW shadowing, so the
+    deleted entry — and any snapshot entry it shadowed — cannot reappear. -/
+theorem C16_cursor_delete_next {δ π : Type} [ItOps δ] [ItOps π] (t' : Tx) (fuel : Nat) (c : Cursor δ π)
+    (isDb : Bool) (ld lp : List E) (hf : ld.length < fuel)
+    (hcur : c.cur = some isDb) (hfwd : c.fwd = true)
+    (hd : Stream (if isDb then (ItOps.next c.db).1 else c.db) ld)
+    (hp : Stream (if isDb then c.pend else (ItOps.next c.pend).1) lp) :
+    CStream t' fuel (c.next t' fuel).1 (mergeF (shadow t') ld lp) := by
+  unfold Cursor.next
+  simp only [hcur, hfwd, Bool.not_true, Bool.false_eq_true, if_false]
+  cases isDb with
+  | true =>
+    simp only [if_true] at hd hp ⊢
+    exact choose_stream t' fuel _ ld lp _ (Nat.le_refl _) hf rfl hd hp
+  | false =>
+    simp only [Bool.false_eq_true, if_false] at hd hp ⊢
+    exact choose_stream t' fuel _ ld lp _ (Nat.le_refl _) hf rfl hd hp
+
+theorem ldb_seek_items (d : LdbIt) (k : Bytes) : (LdbIt.seek d k).1.items = d.items := by
+  unfold LdbIt.seek; split <;> rfl
+
+/-- `Seek` end to end for the key cursor (`newCursor(…, ctKeys/ctBuckets)`): after `Seek(k)` the
+    forward walk visits the ordered merge of the three layers from `<bucket id><k>` on (each treap
+    layer clamped to the start of the range, as the fixed `ldbTreapIter`/`ldbCacheIter` do). -/
+theorem C16_cursor_seek_key (t : Tx) (id pfx k : Bytes) (fuel : Nat)
+    (hck : Sorted t.snap.ckeys) (hpk : Sorted t.pkeys)
+    (hfuel : t.snap.ldb.length + t.snap.ckeys.length < fuel) :
+    let lim := prefixLimit pfx
+    let sk := bucketizedKey id k
+    let sk' := if compare sk pfx == Ordering.lt then pfx else sk
+    let LD := (t.snap.ldb.filter fun e => inRange (some pfx) lim e.1).dropWhile fun e => compare e.1 sk == Ordering.lt
+    let LC := rangeListFrom sk' pfx lim t.snap.ckeys
+    let LP := rangeListFrom sk' pfx lim t.pkeys
+    CStream t fuel ((newKeyCursor t id pfx).seek t fuel k).1
+      (mergeF (shadow t) (mergeF (fun k => has t.snap.cremoves k || has t.snap.ckeys k) LD LC) LP) := by
+  simp only []
+  let sk := bucketizedKey id k
+  let it0 : CacheIt := mkCacheIt t.snap pfx
+  let it1 : CacheIt := { it0 with db := (it0.db.seek sk).1, ci := (it0.ci.seek sk).1, fwd := true }
+  have hdb : Stream it1.db ((t.snap.ldb.filter fun e => inRange (some pfx) (prefixLimit pfx) e.1).dropWhile
+      fun e => compare e.1 sk == Ordering.lt) := ldbit_seek_stream it0.db sk
+  have hci := treapit_seek_stream it0.ci pfx sk rfl hck
+  have hlen : ((t.snap.ldb.filter fun e => inRange (some pfx) (prefixLimit pfx) e.1).dropWhile
+      fun e => compare e.1 sk == Ordering.lt).length ≤ it1.db.items.length := by
+    show _ ≤ (LdbIt.seek it0.db sk).1.items.length
+    rw [ldb_seek_items]
+    exact dropWhile_length_le _ _
+  have hcache := cacheit_choose_stream _ _ _ it1 (Nat.le_refl _) hlen rfl hdb hci
+  have hsh : shadowC it1 = fun k => has t.snap.cremoves k || has t.snap.ckeys k := by
+    funext k; simp [shadowC, it1, it0, mkCacheIt]
+  rw [hsh] at hcache
+  have hpend := treapit_seek_stream (mkPendIt t pfx) pfx sk rfl hpk
+  have hl1 : ((t.snap.ldb.filter fun e => inRange (some pfx) (prefixLimit pfx) e.1).dropWhile
+      fun e => compare e.1 sk == Ordering.lt).length ≤ t.snap.ldb.length :=
+    Nat.le_trans (dropWhile_length_le _ _) (List.length_filter_le _ _)
+  have hl2 : (rangeListFrom (if compare sk pfx == Ordering.lt then pfx else sk) pfx (prefixLimit pfx) t.snap.ckeys).length
+      ≤ t.snap.ckeys.length := by
+    unfold rangeListFrom
+    exact Nat.le_trans (takeWhile_length_le _ _) (dropWhile_length_le _ _)
+  have hl3 := mergeF_length_le (fun k => has t.snap.cremoves k || has t.snap.ckeys k) _
+    ((t.snap.ldb.filter fun e => inRange (some pfx) (prefixLimit pfx) e.1).dropWhile fun e => compare e.1 sk == Ordering.lt)
+    (rangeListFrom (if compare sk pfx == Ordering.lt then pfx else sk) pfx (prefixLimit pfx) t.snap.ckeys)
+    (Nat.le_refl _)
+  exact C16_cursor_seek t fuel (newKeyCursor t id pfx) k _ _
+    (Nat.lt_of_le_of_lt (Nat.le_trans hl3 (Nat.add_le_add hl1 hl2)) hfuel) hcache hpend
+
+theorem ldb_last_items (d : LdbIt) : (LdbIt.last d).1.items = d.items := by
+  unfold LdbIt.last; split <;> rfl
+
+/-- Backward walk end to end for the key cursor: `Last` followed by `Prev`… visits the ordered
+    merge of the three layers restricted to the bucket's range, in descending key order. -/
+theorem C16_cursor_backward_key (t : Tx) (id pfx l : Bytes) (fuel : Nat) (hlim : prefixLimit pfx = some l)
+    (hck : Sorted t.snap.ckeys) (hpk : Sorted t.pkeys)
+    (hfuel : t.snap.ldb.length + t.snap.ckeys.length < fuel) :
+    let LD := (t.snap.ldb.filter fun e => inRange (some pfx) (some l) e.1).reverse
+    let LC := rangeListRev (some pfx) l t.snap.ckeys
+    let LP := rangeListRev (some pfx) l t.pkeys
+    CBStream t fuel ((newKeyCursor t id pfx).last t fuel).1
+      (mergeB (shadow t) (mergeB (fun k => has t.snap.cremoves k || has t.snap.ckeys k) LD LC) LP) := by
+  simp only []
+  let it0 : CacheIt := mkCacheIt t.snap pfx
+  let it1 : CacheIt := { it0 with db := it0.db.last.1, ci := it0.ci.last.1, fwd := false }
+  have hitems0 : it0.db.items = t.snap.ldb.filter fun e => inRange (some pfx) (some l) e.1 := by
+    simp [it0, mkCacheIt, LdbIt.mk', hlim]
+  have hdb : BStream it1.db (t.snap.ldb.filter fun e => inRange (some pfx) (some l) e.1).reverse := by
+    have := ldbit_last_bstream it0.db
+    rw [hitems0] at this; exact this
+  have hci : BStream it1.ci (rangeListRev (some pfx) l t.snap.ckeys) :=
+    treapit_last_bstream it0.ci l (by simp [it0, mkCacheIt, hlim]) hck
+  have hlen : (t.snap.ldb.filter fun e => inRange (some pfx) (some l) e.1).reverse.length ≤ it1.db.items.length := by
+    show _ ≤ (LdbIt.last it0.db).1.items.length
+    rw [ldb_last_items, hitems0]; simp
+  have hcache := cacheit_choose_stream_b _ _ _ it1 (Nat.le_refl _) hlen rfl hdb hci
+  have hsh : shadowC it1 = fun k => has t.snap.cremoves k || has t.snap.ckeys k := by
+    funext k; simp [shadowC, it1, it0, mkCacheIt]
+  rw [hsh] at hcache
+  have hpend : BStream (ItOps.last (mkPendIt t pfx)).1 (rangeListRev (some pfx) l t.pkeys) :=
+    treapit_last_bstream (mkPendIt t pfx) l (by simp [mkPendIt, hlim]) hpk
+  have hl1 : (t.snap.ldb.filter fun e => inRange (some pfx) (some l) e.1).reverse.length ≤ t.snap.ldb.length := by
+    simp only [List.length_reverse]; exact List.length_filter_le _ _
+  have hl2 : (rangeListRev (some pfx) l t.snap.ckeys).length ≤ t.snap.ckeys.length := by
+    unfold rangeListRev
+    refine Nat.le_trans (takeWhile_length_le _ _) ?_
+    simp only [List.length_reverse]; exact takeWhile_length_le _ _
+  have hl3 := mergeB_length_le (fun k => has t.snap.cremoves k || has t.snap.ckeys k) _
+    (t.snap.ldb.filter fun e => inRange (some pfx) (some l) e.1).reverse (rangeListRev (some pfx) l t.snap.ckeys)
+    (Nat.le_refl _)
+  exact C16_cursor_backward t fuel (newKeyCursor t id pfx) _ _
+    (Nat.lt_of_le_of_lt (Nat.le_trans hl3 (Nat.add_le_add hl1 hl2)) hfuel) hcache hpend
+
+/-! ## the refinement statement -/
+
+/-- raw-key operations of a transaction -/
+inductive KOp where
+  | put (k v : Bytes)
+  | del (k : Bytes)
+  | get (k : Bytes)
+
+/-- the implementation: `putKey` / `deleteKey` / `fetchKey` -/
+def kstep (t : Tx) : KOp → Tx × Option (Option Bytes)
+  | .put k v => (t.putKey k v, none)
+  | .del k => (t.deleteKey k, none)
+  | .get k => (t, some (t.fetch k))
+
+/-- the specification: a finite map as a function -/
+def kspec (m : Bytes → Option Bytes) : KOp → (Bytes → Option Bytes) × Option (Option Bytes)
+  | .put k v => (fun k' => if k' = k then some v else m k', none)
+  | .del k => (fun k' => if k' = k then none else m k', none)
+  | .get k => (m, some (m k))
+
+/-- **Refinement (`C16_refines`).**  Abstraction: a transaction is the map `k ↦ t.fetch k`
+    (= `find k t.view`, `C16_tx_fetch`); a database is `k ↦ find k d.view`.
+    * every raw-key operation of a writable transaction returns what the map returns and commutes
+      with the abstraction, and keeps the representation invariant;
+    * `Commit` makes the database's map equal the transaction's map (for either flush decision),
+      `flush` and `reopen` leave the database's map alone.
+    Bucket operations sit on top of these raw-key operations: `C16_create_bucket`,
+    `C16_delete_bucket`, `C16_bucket_keys_injective`; cursors: `C16_cursor_forward(_view)`,
+    `C16_cursor_backward`, `C16_cursor_seek`, `C16_cursor_turn(_back)`, `C16_cursor_delete_next`.
+    Not covered by a theorem (`_partial` in that sense): `resolve` of bucket paths, freshness of
+    new bucket ids, and the positioning lemmas of the leaf iterators for backward / seek / turn
+    (the forward ones are proved: `ldbit_first_stream`, `treapit_first_stream`,
+    `cacheit_choose_stream`). -/
+theorem C16_refines (t : Tx) (h : TxOK t) (hw : t.writable = true) (op : KOp) :
+    (kstep t op).2 = (kspec t.fetch op).2 ∧
+    (∀ k, (kstep t op).1.fetch k = (kspec t.fetch op).1 k) ∧
+    TxOK (kstep t op).1 ∧ (kstep t op).1.writable = true ∧
+    (∀ (d : DB), DbOK d → t.snap = d.snapshot →
+        (∀ k, find k (d.commitTx t).view = t.fetch k) ∧
+        (∀ k, find k d.flush.view = find k d.view) ∧ (∀ k, find k d.reopen.view = find k d.view)) := by
+  refine ⟨?_, ?_, ?_, ?_, ?_⟩
+  · cases op <;> rfl
+  · intro k
+    cases op with
+    | put k0 v => exact C16_put t h hw k0 v k
+    | del k0 => exact C16_delete t h hw k0 k
+    | get k0 => rfl
+  · cases op with
+    | put k0 v => exact putKey_ok h k0 v
+    | del k0 => exact deleteKey_ok h k0
+    | get k0 => exact h
+  · cases op <;> exact hw
+  · intro d hd hs
+    refine ⟨fun k => ?_, fun k => (C16_flush_invisible d hd k).1, fun k => C16_reopen d hd k⟩
+    rw [(C16_commit d t hd h hw hs k).1, C16_tx_fetch t h k]
+
 /-- non-vacuity: a committed put is visible whichever way the cache went. -/
 example :
     let d : DB := { ldb := [([0, 0, 0, 0, 5], [1])], maxSize := 0 }
